@@ -116,3 +116,7 @@ func Harness_C09_backfill() {
 		verifReach("several")
 	}
 }
+
+func Harness_C08_removeXattrs()       { stepXattr(pC08, xRemoveXattrs) }
+func Harness_C08_updateXattrs()       { stepXattr(pC08, xUpdateXattrs) }
+func Harness_C08_updateXattrDelBody() { stepXattr(pC08, xUpdateXattrDeleteBody) }
